@@ -57,6 +57,52 @@ class KD:
         return out
 
 
+    def _pairs(self, other, r, strict_positive):
+        re = _r(r)
+        out = []
+        for i, a in enumerate(self.p):
+            for j, b in enumerate(other.p):
+                d2 = z3.Sum([(_r(x) - _r(y)) * (_r(x) - _r(y)) for x, y in zip(a, b)])
+                cond = And(d2 <= re * re, d2 > 0) if strict_positive else (d2 <= re * re)
+                if cur().decide(And(cond)):
+                    out.append((i, j))
+        return out
+
+    def sparse_distance_matrix(self, other, max_distance, p=2.0, output_type="dok_matrix"):
+        """scipy contract: all pairs within max_distance; a sparse matrix stores a zero distance as an explicit
+        zero, which `.nonzero()` / `.keys()` of the dok matrix drop"""
+        if p not in (2, 2.0):
+            raise Unsupported("sparse_distance_matrix with p != 2")
+        return _SparseDist(self, other, max_distance)
+
+    def query_pairs(self, *a, **k):
+        raise Unsupported("KDTree.query_pairs is not modelled")
+
+    def query_ball_point(self, x, r, **k):
+        xs = [list(q) for q in (x if isinstance(x[0], (list, tuple)) else [x])]
+        res = KD(xs).query_ball_tree(self, r)
+        return res if isinstance(x[0], (list, tuple)) else res[0]
+
+    def __getattr__(self, name):
+        raise Unsupported(f"KDTree.{name} is not modelled")
+
+
+class _SparseDist:
+    def __init__(self, a, b, r):
+        self.a, self.b, self.r = a, b, r
+        self.shape = (len(a.p), len(b.p))
+
+    def nonzero(self):
+        pairs = self.a._pairs(self.b, self.r, strict_positive=True)
+        return (np.array([i for i, _ in pairs], dtype=np.intp), np.array([j for _, j in pairs], dtype=np.intp))
+
+    def keys(self):
+        return self.a._pairs(self.b, self.r, strict_positive=True)
+
+    def __getattr__(self, name):
+        raise Unsupported(f"sparse distance matrix attribute {name} is not modelled")
+
+
 class _Reg:
     def __init__(self, label, bits, spacing):
         self.label = label
@@ -191,6 +237,8 @@ def points_replay(f):
     M = len(pts)
     ob = f["obligation"]
     detail = f"points={pts.tolist()} r={r} nodes={list(G.nodes(data=True))} edges={sorted(G.edges)}"
+    if ob == "C18.builds_without_error":
+        return False, "the real builder did not raise on " + detail
     if ob == "C18.one_node_per_detection":
         return sorted(G.nodes) != list(range(M)), detail
     if ob == "C18.node_time_and_position":
@@ -223,6 +271,7 @@ def seg_harness(ctx, cfg):
 def _seg(ctx, cfg):
     global LABELS
     shape = tuple(cfg["shape"])
+    assert len(shape) >= 3, "frames must be 2-D or 3-D (skimage regionprops)"
     L = cfg["labels"]
     LABELS = tuple(range(1, L + 1))
     seg = SArr.fresh("c", shape, np.int64)
@@ -329,6 +378,8 @@ def seg_replay(f):
     for t in range(shape[0]):
         for reg in regionprops(before[t], spacing=sp):
             det[reg.label] = (t, reg.area, reg.centroid)
+    if ob == "C18.builds_without_error":
+        return False, "the real builder did not raise on " + detail
     if ob == "C18.input_untouched":
         return (not np.array_equal(seg, before)), detail
     if ob == "C18.one_node_per_detection":
